@@ -2,6 +2,7 @@
    Only statements here; proofs are in proofs/Throttle_proofs.v. *)
 From Coq Require Import List ZArith NArith Bool String Lia.
 From Verif Require Import gen.Params gen.LockProgs model.Throttle corr.Run_C17 proofs.Throttle_proofs.
+From Verif Require model.BackendLocks model.ThrottleLocks proofs.ThrottleLocks_proofs.
 Import ListNotations.
 Open Scope Z_scope.
 
@@ -41,6 +42,19 @@ Theorem C17_isolation : forall k ops,
   final ops k = final (filter (touches k) ops) k.
 Proof. exact isolation. Qed.
 
+(* The same as the predicate the harness evaluates on two runs of the
+   implementation (corr/Run_C17.v, verdict code 5): the answers an
+   (address,kind) gets in a history are the answers it gets in the history
+   restricted to it - for every op list, and for sequential histories
+   restricted at the level of whole attempts. *)
+Theorem C17_isolation_predicate : forall ops ks,
+  P_C17_iso (trace_of ops)
+    (map (fun k => (k, map snd (trace_of (filter (touches k) ops)))) ks) = true.
+Proof. exact P_iso_holds. Qed.
+Theorem C17_isolation_sequential : forall k xs,
+  iso_ok k (arun xs) (map snd (arun (filter (stouches k) xs))) = true.
+Proof. exact iso_sequential. Qed.
+
 (* Every interleaving: an attempt is refused only after ten recorded failures
    of the same (address,kind). *)
 Theorem C17_refused_needs_ten : forall pre t a act,
@@ -71,6 +85,53 @@ Theorem C17_check_atomic :
   In ("throttle"%string, [Lock; Unlock]) locks_memoryThrottler.
 Proof. split; vm_compute; tauto. Qed.
 
+(* The delay of a failed attempt is slept outside the mutex.  The translator
+   marks the call of doDelay among the lock operations of every entry point
+   (gen/LockProgs.v, regenerated from the current source): in the current source
+   no entry point makes that call while holding the mutex, and throttle is the
+   entry point that makes it, after its critical section. *)
+Theorem C17_delay_outside_lock :
+  forallb ThrottleLocks.sleeps_unlocked ThrottleLocks.throttler_progs = true /\
+  In ("throttle"%string, [LOp Lock; LOp Unlock; LCall "doDelay"%string]) locks_memoryThrottler_calls /\
+  forall name p f m, In (name, p) locks_memoryThrottler_calls ->
+    In (f, m) (ThrottleLocks.held_at_calls None p) -> m = None.
+Proof.
+  split; [vm_compute; reflexivity|]. split; [vm_compute; tauto|].
+  intros name p f m Hin. apply ThrottleLocks_proofs.sleeps_unlocked_calls.
+  assert (H : forallb ThrottleLocks.sleeps_unlocked ThrottleLocks.throttler_progs = true) by (vm_compute; reflexivity).
+  rewrite forallb_forall in H. apply H. unfold ThrottleLocks.throttler_progs.
+  apply in_map_iff. exists (name, p). split; [reflexivity|exact Hin].
+Qed.
+
+(* What that buys, for every set of programs that sleep outside the mutex: the
+   threads that are awake - any number, each between two sleeps of an entry
+   point, under any scheduler - all finish within two steps per lock operation
+   while the sleepers stay asleep (they are not threads of the system: having
+   reached a sleep they hold nothing).  So the delay of one address's failure
+   is never waited for by another address or kind. *)
+Theorem C17_sleepers_do_not_block : forall progs : list (list lockev),
+  forallb ThrottleLocks.sleeps_unlocked progs = true ->
+  forall running : list (list lockop),
+  (forall q, In q running -> exists p, In p progs /\ In q (ThrottleLocks.segments p)) ->
+  forall sched,
+    let s := BackendLocks.run sched (BackendLocks.init running) in
+    (BackendLocks.all_done s = true \/ exists tid, (tid < List.length running)%nat /\ BackendLocks.enabled s tid = true) /\
+    BackendLocks.deadlocked s = false /\
+    ((forall tid, BackendLocks.enabled s tid = false) -> BackendLocks.all_done s = true) /\
+    (BackendLocks.effective sched (BackendLocks.init running) <= BackendLocks.budget running)%nat.
+Proof. exact ThrottleLocks_proofs.awake_threads_complete. Qed.
+
+(* and what a lock held across the delay does (Lock; defer Unlock; ...; doDelay):
+   the predicate rejects it, the call is made holding the write lock, and with
+   the sleeper asleep the check of another address can never start. *)
+Theorem C17_sleep_under_lock_blocks_refuted :
+  ThrottleLocks.sleeps_unlocked ThrottleLocks.sleeping_under_lock = false /\
+  ThrottleLocks.held_at_calls None ThrottleLocks.sleeping_under_lock = [("doDelay"%string, Some BackendLocks.MW)] /\
+  let s := BackendLocks.run [0; 0]%nat (BackendLocks.init [ [Lock]; [Lock; Unlock] ]) in
+  BackendLocks.all_done s = false /\ BackendLocks.deadlocked s = true /\
+  forall tid, BackendLocks.enabled s tid = false.
+Proof. exact ThrottleLocks_proofs.sleeping_under_lock_blocks. Qed.
+
 (* Non-vacuity: a history that meets the hypotheses and exercises the window. *)
 Example C17_nonvacuous :
   let xs := map (fun i => Attempt (Z.of_nat i * 1000000000) (A6 1 (N.of_nat i)) 7 true) (seq 0 12) in
@@ -92,3 +153,8 @@ Print Assumptions C17_other_64.
 Print Assumptions C17_other_kind.
 Print Assumptions C17_forgetting.
 Print Assumptions C17_check_atomic.
+Print Assumptions C17_isolation_predicate.
+Print Assumptions C17_isolation_sequential.
+Print Assumptions C17_delay_outside_lock.
+Print Assumptions C17_sleepers_do_not_block.
+Print Assumptions C17_sleep_under_lock_blocks_refuted.
